@@ -5,22 +5,22 @@ namespace Qryn.Sql
 def emptySel : Sel := .mk [] false [] none [] none none [] none [] none
 
 /-! `Select.With` / `AddWith`: withs of the added query are hoisted in front, duplicates by alias dropped -/
-def Sel.withs : Sel → List (String × Sel)
+def Sel.withs : Sel → List (Alias × Sel)
   | .mk w _ _ _ _ _ _ _ _ _ _ => w
 
-def hasAlias (ws : List (String × Sel)) (a : String) : Bool := ws.any (fun w => w.1 == a)
+def hasAlias (ws : List (Alias × Sel)) (a : Alias) : Bool := ws.any (fun w => w.1 == a)
 
-def addWith1 (cur : List (String × Sel)) (w : String × Sel) : List (String × Sel) :=
+def addWith1 (cur : List (Alias × Sel)) (w : Alias × Sel) : List (Alias × Sel) :=
   if hasAlias cur w.1 then cur
   else
     let cur' := w.2.withs.foldl (fun acc w' => if hasAlias acc w'.1 then acc else acc ++ [w']) cur
     cur' ++ [w]
 
-def Sel.setWiths : Sel → List (String × Sel) → Sel
+def Sel.setWiths : Sel → List (Alias × Sel) → Sel
   | .mk _ d c f j p w g h o l, ws => .mk ws d c f j p w g h o l
 
 /-- `s.With(ws...)`: reset, then add each -/
-def Sel.with_ (s : Sel) (ws : List (String × Sel)) : Sel := s.setWiths (ws.foldl addWith1 [])
+def Sel.with_ (s : Sel) (ws : List (Alias × Sel)) : Sel := s.setWiths (ws.foldl addWith1 [])
 
 def Sel.andWhere : Sel → List Expr → Sel
   | .mk ws d c f j p w g h o l, cl => .mk ws d c f j p (some (andCond w cl)) g h o l
